@@ -43,6 +43,26 @@ type World struct {
 	Sizes  types.Sizes
 	AllFns map[*ssa.Function]bool
 	NFuncs int // source functions of the module
+	pure   map[*ssa.Function]bool
+}
+
+// PureFunc: E1 says the function writes nothing but fresh memory and contains no
+// nondeterministic construct (its result is a function of its arguments and init-only tables).
+func (w *World) PureFunc(f *ssa.Function) bool {
+	if w.pure == nil {
+		w.pure = map[*ssa.Function]bool{}
+		e := RunEffects(w)
+		for fn, s := range e.Sum {
+			ok := len(s.notes) == 0
+			for r := range s.writes {
+				if r.kind != rkFresh {
+					ok = false
+				}
+			}
+			w.pure[fn] = ok
+		}
+	}
+	return w.pure[f]
 }
 
 func repoDir() string {
